@@ -474,7 +474,11 @@ func (e *Evaluator) callFunction(exp *ExprCall, fn *Cell, args []*Value) (*Cell,
 		}
 
 		if retVal != nil {
-			return NewCell(*retVal), nil
+			// what is returned is a value, not the place it was read from: a
+			// missing member must not stay attached to its would-be parent
+			result := NewCell(*retVal)
+			result.Value.ParentObj = nil
+			return result, nil
 		}
 		return NewCell(NewValue(nil)), nil
 	default:
